@@ -572,6 +572,12 @@ class BitStream(ConstBitStream, bitstring.BitArray):
         # A mutable bitstring is no longer tied to the file it was created from.
         self._filename = None
 
+    def __setattr__(self, attribute, value) -> None:
+        super().__setattr__(attribute, value)
+        # Assigning to an interpretation (s.hex = 'ff', s.uint8 = 3, ...) can shorten the bitstring.
+        if attribute[0] != '_' and self._pos > len(self):
+            self._pos = 0
+
     def __copy__(self) -> BitStream:
         """Return a new copy of the BitStream."""
         s_copy = object.__new__(BitStream)
